@@ -68,7 +68,8 @@ def _classes(t):
 def sym_isinstance(x, t):
     if _builtin_isinstance(x, sx.SymNpInt):
         import numpy as _np
-        return any(_builtin_isinstance(c, _builtin_type) and issubclass(_np.int64, c)
+        carrier = getattr(_np, x.carrier)
+        return any(_builtin_isinstance(c, _builtin_type) and issubclass(carrier, c)
                    for c in (_unvirtual(c) for c in _classes(t)))
     if _builtin_isinstance(x, sx.SymNum):
         ts = _classes(t)
